@@ -78,9 +78,9 @@ CLAIMS = {
   note="Outside the property and recorded, not judged: absolute file arguments get no exclusion test; hidden components of the directory argument itself are not tested; directories outside the working directory get no exclusions.",
   design="6/C12", technique="Lean 4 proof relating the check and scan selection models + correspondence on real trees"),
  "C01": dict(
-  text="Staged. (A, proved: Props/C01.lean, Spec/Layout.lean) for every token list and every canonical layout - an algorithm-independent description: functions in source order, brace blocks laminar (proved for every getBlocks output), each body the first block at/after its header's end, nothing straddling, no block starting directly at a body's end - the pipeline returns exactly the expected measurements: each function paired with its own body even with brace groups in the parameter list and headers in any order (scopes_of_layout_partial), parent = innermost enclosing function at every depth (fold_of_layout), length = distinct lines of own tokens incl. the token right after a nested function (count_of_layout), span = first header token .. just past the body's last token (scan_of_layout_partial; flat variant for C). The comparison primitives of the model are proved equal to the source-regenerated ones (Lemmas/GenTie.lean). (B) that the shipped patterns find exactly the canonical headers, the Python indentation stage, and the lexers' token classes are tied by a three-way correspondence on generated programs of all 7 languages: real analysis = Lean model = per-token expectation computed from the program tree, incl. an exhaustive body-length sweep 1..75.",
-  note="Partial: Stage A covers brace-block languages; header discovery relies on C13-C15 (engine semantics, unambiguity, shape of every match) plus correspondence; the Python block stage is correspondence-only. `_partial` because the full Stage A statement fails when a block starts directly at a body's end (kernel-checked witness adjacent_block_is_merged; excluded from the canonical fragment, Appendix A).",
-  design="6.1/C01", technique="Lean 4 proof (layout -> measurements) + three-way correspondence with a per-token expectation"),
+  text="End to end on program trees, from tokens onwards (DESIGN 6.1). Brace languages: for every program FOREST (leaf / brace group / function node with header, gap, body; any number, order and nesting depth) in a decidable tree-level canonical fragment (headers `Name (…)+` / `[function] Name (…)+` without call-shaped group, balanced parentheses, no header-shaped tokens before a non-function block; Java: throws gap, not after new/record), `scanFile L (render p)` returns exactly the tree report: each function node once, own name, span from the first header token to just past the closing brace, length = distinct lines of its own tokens (Props/C01full.lean: scan_of_rendered_canon_tree, scan_java_…, scan_js_…, scan_ts_…; built from Props/C01.lean layout -> report, Props/C01tree.lean tree -> layout, Props/C01syn.lean syntactic discovery for all token lists; every clause of the fragment has a kernel-checked witness that it is needed). Python: for every well-formed indentation tree `scanFile Gen.python (pyRender t) = pyTreeReport t` (Props/C01py.lean, C01pyfull.lean: logical lines incl. continuation, indentation blocks, decorators, async, multi-line headers). Text level: `analyze L (textOf p) (rawOf p)` = tree report, where rawOf p is the token stream the lexer is assumed to produce (Props/C01text.lean). The shipped patterns are pinned by rfl against the regenerated Gen/Languages.lean. Tie: real analysis = Lean model = per-token expectation on programs of all 7 languages (sweep 1..75), and real analysis = TREE report computed by the model driver on random forests whose hypotheses the driver decides and whose tokens are compared with the real lexer's.",
+  note="Not proved: that the Pygments lexers produce rawOf p for textOf p (compared on every generated forest); assigned arrow functions as function nodes, and comments / suppression markers at tree level (covered by the evaluated discovery flag resp. by the token-level theorems of C04/C17). `_partial` names mark the restriction no_adjacent (a block directly after a function body is merged: adjacent_block_is_merged). Known findings KF1 (call-shaped group in a parameter list hides the function, excluded from the fragment) and KF3 (TypeScript ':' follow-up vs conditional expressions).",
+  design="6.1/C01", technique="Lean 4 proof (program tree -> tokens -> layout -> measurements, syntactic header discovery) + correspondence: Lean-forest stream with driver-evaluated hypotheses and per-token expectations"),
 }
 
 NA_REASON = "check under construction in this round (see DESIGN.md section 6); not yet claimed"
